@@ -277,6 +277,20 @@ func c05(r *ev.Result, tier string) {
 	c05OddCaches(r, base)
 	/* Overlapping instances on one cache path. */
 	c05Overlap(r, base)
+	/* Scripts requested by 16 clients at once: both pins of every one are
+	the listener's (a sampling complement for shared rendering state). */
+	{
+		n := 400
+		if !quick {
+			n = 4000
+		}
+		ids, problems := scriptsConcurrently(n)
+		for _, pr := range problems {
+			r.Violate(ev.Violation{Signature: "advertised-pin-differs/concurrent-scripts", What: pr, Kind: "c05", Replay: map[string]string{"scenario": "concurrent-scripts"}})
+		}
+		r.Add(len(ids))
+		r.Set("concurrent_scripts_checked", len(ids))
+	}
 	/* The real binary: what the terminal shows. */
 	c05RealBinary(r, base)
 	r.Assume("key values are not enumerable (ecdsa.GenerateKey is deliberately non-deterministic); the oracle is relational, so every generated key is checked against what was advertised for it")
